@@ -4,7 +4,7 @@ CONSTANTS
   Vals = {"1", "2"}
   MaxOps = 3
   InitRecomputes = FALSE
-  FinalInRoot = TRUE
-  TrustPrevOnEmpty = FALSE
+  FinalInRoot = FALSE
+  TrustPrevOnEmpty = TRUE
 INVARIANTS EqualHistoriesEqualRoots InitIdempotent ReturnedIsCurrent
 CHECK_DEADLOCK FALSE
